@@ -22,8 +22,9 @@ RULE = (
     "All cases are non-trivial (they evaluate real kernels); distinct = distinct (clause, kernel, nf, z/N)."
 )
 ASSUMPTIONS = [
-    "orders 2 and 3 are Vogt et al. parametrisations: sum rules hold within |M1-target| <= eps * sum|piece moments| with eps = 1e-4 "
-    "(order 2, measured <=2.2e-5), 3e-5 (order 3, measured <=3.8e-6), 1.5e-3 (light-by-light piece, measured 2.3e-4); order 1 is exact (1e-9)",
+    "orders 2 and 3 are Vogt et al. parametrisations: sum rules hold within |M1-target| <= eps * sum|piece moments| with eps five times the "
+    "deviation measured on the enumerated rules (nf 3-6): Adler 3e-6 (order 2, measured 6.1e-7) and 2e-5 (order 3, 3.8e-6), GLS/Bjorken 1e-4 (order 2, 2.2e-5) "
+    "and 2e-5 (order 3, 3.4e-6), light-by-light piece 1.5e-3 (2.3e-4); order 1 is exact (1e-9)",
     "sub-per-mille edits of fitted NNLO/N3LO constants in regular parts are not detectable by these exact constraints",
 ]
 BUDGET = {"quick": {"examples": 4000, "wall": 300}, "thorough": {"examples": 1000000, "wall": 2400}}
@@ -246,7 +247,10 @@ def check_case(case):
             # envelopes per order from the measured accuracy of the parametrisations' first moments (<=2.2e-5 of sum|pieces| at
             # order 2, <=3.8e-6 at order 3, 2.3e-4 for the light-by-light piece): 1e-4, 3e-5, 1.5e-3. The first version used
             # 1.5e-3 throughout and missed a swap of the even/odd CC F3 classes at NNLO (2e-4; seeded change C04).
-            rel = 1e-9 if o == 1 else (1.5e-3 if rule == "lbl" else (1e-4 if o == 2 else 3e-5))
+            # ... and per sum rule since a fourth seeded change (NNLO local piece of the wrong CC class, 1.1e-4 of sum|pieces|) passed the
+            # common order-2 envelope by 10 % only: the rules are enumerated for nf 3-6, their deviations are known exactly
+            # (Adler 6.1e-7 / 3.8e-6 at orders 2 / 3, GLS and Bjorken 2.2e-5 / 3.4e-6), the envelopes are five times those
+            rel = 1e-9 if o == 1 else (1.5e-3 if rule == "lbl" else {("adler", 2): 3e-6, ("adler", 3): 2e-5}.get((rule, o), 1e-4 if o == 2 else 2e-5))
             tol = rel * sc + 1e-12
             v.metric(f"sumrule:o{o}", abs(got - exp) / tol)
             if not abs(got - exp) <= tol:
